@@ -1439,7 +1439,7 @@ fn parse_deref_steps_list(
 {
 	let start = tokens.cursor().into();
 	let mut list = buffer.start_list();
-	for _ in 0..MAX_REFERENCE_DEPTH
+	for _ in 0..=MAX_REFERENCE_DEPTH
 	{
 		let step = if tokens.consume_optional(BaseToken::BracketLeft)
 		{
